@@ -51,3 +51,41 @@ func CorpusC12() []Witness {
 		{"panic:getSchemaDiffNode:nil-deref", "a response code added without a body schema (e.g. 204) panics (nil *spec.Schema inside a non-nil interface)", &Sample{Kind: "pair", A: r200, B: r200204}},
 	}
 }
+
+// CorpusC15: pairs whose report holds entries that differ in exactly one component of the location (nesting depth, field
+// name, response code, method, url): what an ignore entry must discriminate.
+type PairCase struct {
+	Name string
+	A, B *Spec
+}
+
+func CorpusC15() []PairCase {
+	str := func() *Schema { return &Schema{Type: []string{"string"}} }
+	obj := func(req []string, props ...KV) *Schema { return &Schema{Type: []string{"object"}, Props: props, Required: req} }
+	body := func(s *Schema) []*Param {
+		return []*Param{{Name: "body", In: "body", Required: true, Chain: []*Simple{{}}, Schema: s}}
+	}
+	mk := func(bodyS *Schema, desc string, extra ...*PathItem) *Spec {
+		op := &Operation{Method: "post", Desc: desc, Params: body(bodyS), Responses: []*Response{{Code: 200, Desc: "ok", Schema: str()}, {Code: 201, Desc: "ok", Schema: str()}}}
+		get := &Operation{Method: "get", Responses: []*Response{{Code: 200, Desc: "ok", Schema: str()}}}
+		return &Spec{Paths: append([]*PathItem{{URL: "/a", Ops: []*Operation{op, get}}}, extra...)}
+	}
+	// nested: property a and nested a.b both become required (same code, compat, info, url, method; node chain of one is a prefix of the other's)
+	nestedA := mk(obj(nil, KV{"a", obj(nil, KV{"b", str()}, KV{"c", str()})}), "")
+	nestedB := mk(obj([]string{"a"}, KV{"a", obj([]string{"b", "c"}, KV{"b", str()}, KV{"c", str()})}), "")
+	// same change under two response codes and two methods
+	respA := mk(str(), "")
+	respB := mk(str(), "")
+	for _, op := range respB.Paths[0].Ops {
+		for _, r := range op.Responses {
+			r.Schema = &Schema{Type: []string{"integer"}}
+		}
+	}
+	// same change at two urls
+	other := func(t string) *PathItem {
+		return &PathItem{URL: "/b", Ops: []*Operation{{Method: "post", Params: body(&Schema{Type: []string{t}}), Responses: []*Response{{Code: 200, Desc: "ok"}}}}}
+	}
+	urlA := mk(str(), "", other("string"))
+	urlB := mk(&Schema{Type: []string{"integer"}}, "", other("integer"))
+	return []PairCase{{"nested-required", nestedA, nestedB}, {"two-codes-two-methods", respA, respB}, {"two-urls", urlA, urlB}}
+}
